@@ -1,6 +1,6 @@
 """C29 An adjusted oracle price stays inside the allowed band.
 Spec: OracleValidate.tla (`Adjust`, `AfterAdjust`, `ValidateOne`, `SmallPricesFromPrice`), monitors in
-OracleValidateProps.tla (MonAInward, MonANoneKeeps, MonAAccepted), MC_OracleValidate "price" family,
+OracleValidateProps.tla (MonAInward, MonABand, MonANoneKeeps, MonAAccepted), MC_OracleValidate "price" family,
 Trace_OracleValidate on `adjust` events of the c24 driver (real try_adjust_price -> validate_one -> from_price)
 and on with_prices events with AllowPriceAdjustment."""
 import vlib
@@ -23,7 +23,7 @@ def run(ctx):
     q = ctx.quick
     c24.mc(ctx, "MC_OracleValidate", "MC_OracleValidate_price")
     evs = []
-    some = acc = 0
+    some = acc = one_sided = one_sided_some = 0
     for name, args in (("adjust-small", ["small", "--kind", "adjust"]),
                        ("adjust-random", ["random", "--kind", "adjust", "--seed", ctx.seed, "--n", 5000 if q else 80000])):
         tr = ctx.path(name + ".ndjson")
@@ -36,6 +36,14 @@ def run(ctx):
         evs.append(ev)
         some += sum(1 for e in ev if e["some"])
         acc += sum(1 for e in ev if e["some"] and e["vok"] and e["sok"])
+        for e in ev:
+            # explicit reference, BOTH bounds strictly on the same side of ref +- dev
+            r = c24._ref(e["p"], e["ref"])
+            d = (r * e["k"]) // 100
+            lo, hi = e["p"]["minv"] * 10 ** e["p"]["minm"], e["p"]["maxv"] * 10 ** e["p"]["maxm"]
+            if e["ref"]["some"] and lo <= hi and (hi < r - d or lo > r + d):
+                one_sided += 1
+                one_sided_some += 1 if e["some"] else 0
         ctx.cov["samples"] += [ev[len(ev) // 3], ev[-1]]
     # the real composition inside parse_from_feed_account (AllowPriceAdjustment) -> validate_one -> PriceMap::set
     tr = ctx.path("with.ndjson")
@@ -54,9 +62,12 @@ def run(ctx):
                                                     or s["max"] != it["fd"]["max"] * 10 ** it["tc"]["mult"])
         for it, s in zip(e["items"], e["seen"])))
     evs.append(ev)
-    if some == 0 or acc == 0 or adj_acc == 0:
+    ctx.cov["one_sided_inputs"] = one_sided
+    ctx.cov["one_sided_inputs_adjusted"] = one_sided_some
+    if some == 0 or acc == 0 or adj_acc == 0 or one_sided == 0 or one_sided_some == 0:
         if not ctx.violations:
-            raise vlib.ToolError("vacuity: adjusted=%d adjusted-and-accepted=%d adjusted-in-with_prices=%d" % (some, acc, adj_acc))
+            raise vlib.ToolError("vacuity: adjusted=%d adjusted-and-accepted=%d adjusted-in-with_prices=%d one-sided=%d/%d"
+                                 % (some, acc, adj_acc, one_sided_some, one_sided))
     ctx.cov["adjusted"] = some
     ctx.cov["adjusted_and_accepted"] = acc
     ctx.cov["adjusted_inside_with_prices"] = adj_acc
